@@ -207,6 +207,8 @@ func (e *env) apiScripts() []Script {
 		{"blob-put-config", fmt.Sprintf(`m = manifest.get("%s:v1"); c = image.config(m); blob.put("%s", c)`, R, T)},
 		{"manifest-put", fmt.Sprintf(`m = manifest.get("%s:v1"); manifest.put(m, "%s:copied")`, R, R)},
 		{"manifest-put-layout", fmt.Sprintf(`m = manifest.get("%s:v1"); manifest.put(m, "%s:copied")`, L, L)},
+		{"manifest-put-layout-notag", fmt.Sprintf(`m = manifest.get("%s:v1"); manifest.put(m, "%s")`, L, L)},
+		{"manifest-put-notag", fmt.Sprintf(`m = manifest.get("%s:v1"); manifest.put(m, "%s")`, R, T)},
 		{"manifest-delete", fmt.Sprintf(`m = manifest.get("%s:v2"); m:delete()`, R)},
 		{"manifest-delete-digest", fmt.Sprintf(`m = manifest.get("%s@%s"); m:delete()`, R, e.manDig)},
 		{"manifest-delete-layout", fmt.Sprintf(`m = manifest.get("%s:v1"); m:delete()`, L)},
